@@ -265,6 +265,11 @@ def impl_apply(s, op, h=None):
             da.append_sampled_dimension(op[3], unit=op[4], offset=op[5])
         elif op[2] == "range":
             da.append_range_dimension(op[3], unit=op[4])
+    elif kind == "delete_dims":
+        s.resolve(path, h).delete_dimensions()
+        for c in s.caches.values():                 # handles of the deleted descriptors are not governed
+            for k in [k for k in c if k[:len(path) + 1] == tuple(path) + ("dimensions",)]:
+                del c[k]
     elif kind == "set":
         obj = s.resolve(path, h)
         val = op[3]
@@ -388,9 +393,15 @@ def model_apply(m, op):
         tag = m.resolve(path)
         blk = m.resolve(path[:2])
         tag["features"].append(t_feature(m, mkref(pick(blk["data_arrays"], op[2])), op[3]))
+    elif kind == "delete_dims":
+        m.resolve(path)["dimensions"] = []
     elif kind == "append_dim":
         da = m.resolve(path)
         idx = len(da["dimensions"]) + 1
+        if op[2] == "set" and op[3] and not all(isinstance(x, str) for x in op[3]):
+            raise Refused("TypeError", "ValueError")          # labels must be strings
+        if op[2] == "range" and op[3] and any(b < a for a, b in zip(op[3], op[3][1:])):
+            raise Refused("ValueError")                        # ticks must ascend
         if op[2] == "set":
             da["dimensions"].append({"$k": "SetDimension", "dimension_type": "DimensionType.Set", "index": idx,
                                      "label": None, "labels": list(op[3] or []), "has_link": False})
